@@ -124,31 +124,34 @@ impl<
                 stream_attributes(stream, &self.props, |mut stream, k, v| match k.get() {
                     emit::well_known::KEY_EVT_KIND => Ok(()),
                     emit::well_known::KEY_SPAN_NAME => Ok(()),
-                    emit::well_known::KEY_LVL => {
-                        level = v.by_ref().cast().unwrap_or_default();
-                        Ok(())
-                    }
-                    emit::well_known::KEY_SPAN_ID => {
-                        span_id = v
-                            .by_ref()
-                            .cast::<emit::SpanId>()
-                            .map(|span_id| SP::from(span_id));
-                        Ok(())
-                    }
-                    emit::well_known::KEY_SPAN_PARENT => {
-                        parent_span_id = v
-                            .by_ref()
-                            .cast::<emit::SpanId>()
-                            .map(|parent_span_id| SP::from(parent_span_id));
-                        Ok(())
-                    }
-                    emit::well_known::KEY_TRACE_ID => {
-                        trace_id = v
-                            .by_ref()
-                            .cast::<emit::TraceId>()
-                            .map(|trace_id| TR::from(trace_id));
-                        Ok(())
-                    }
+                    emit::well_known::KEY_LVL => match v.by_ref().cast::<emit::Level>() {
+                        Some(lvl) => {
+                            level = lvl;
+                            Ok(())
+                        }
+                        None => stream.stream_attribute(k, v),
+                    },
+                    emit::well_known::KEY_SPAN_ID => match v.by_ref().cast::<emit::SpanId>() {
+                        Some(id) => {
+                            span_id = Some(SP::from(id));
+                            Ok(())
+                        }
+                        None => stream.stream_attribute(k, v),
+                    },
+                    emit::well_known::KEY_SPAN_PARENT => match v.by_ref().cast::<emit::SpanId>() {
+                        Some(id) => {
+                            parent_span_id = Some(SP::from(id));
+                            Ok(())
+                        }
+                        None => stream.stream_attribute(k, v),
+                    },
+                    emit::well_known::KEY_TRACE_ID => match v.by_ref().cast::<emit::TraceId>() {
+                        Some(id) => {
+                            trace_id = Some(TR::from(id));
+                            Ok(())
+                        }
+                        None => stream.stream_attribute(k, v),
+                    },
                     emit::well_known::KEY_ERR => {
                         has_err = true;
                         Ok(())
